@@ -357,8 +357,16 @@ def run1(scn):
                 if wi < len(ma.log["b"]):
                     resp = ma.log["b"][wi][1]
                     e = any(err_pred(xl(o["addr"] + i)) for i in range(nbm))
+                    e_en = any(err_pred(xl(o["addr"] + i)) for i in range(nbm) if (o["strb"] >> i) & 1)
                     checks += 1
-                    if bool(resp) != e or (resp not in (0, 2)):
+                    if e and not e_en:
+                        # only DISABLED byte lanes fall into the erroring range: a converter that skips sub-words without enabled
+                        # bytes never shows them to the slave (OKAY), a bridge that forwards the word gets the slave's SLVERR: both fine
+                        if resp not in (0, 2):
+                            V("write_response", "master.b", "write #%d addr %#x answered resp=%d" % (wi, o["addr"], resp))
+                            break
+                        e = bool(resp)
+                    elif bool(resp) != e or (resp not in (0, 2)):
                         V("write_response", "master.b", "write #%d addr %#x answered resp=%d, expected %s" % (wi, o["addr"], resp, "SLVERR" if e else "OKAY"))
                         break
                     if not e and not ro:
